@@ -54,7 +54,8 @@ class C04(Check):
     anchors = ['ombott/request_pkg/body_mixin.py']
     level_text = ('Lean theorems over the model of _iter_body/_body_read/BodyMixin._body/body for all data, '
                   'Content-Length values, buffer sizes and read schedules (byte-exact body, every read request '
-                  'stays inside Content-Length, repeatable access, negative length = no read); model tied to the '
+                  'stays inside Content-Length - also over any sequence of later accesses by handler and hooks -, '
+                  'repeatable access, negative length = no read); model tied to the '
                   'code by a differential run through _body_read and through Request.body in a WSGI call.')
     level_note_extra = 'tempfile.TemporaryFile is trusted to behave as a byte buffer; buffer size 0 is a stated degenerate branch'
     rule = ('body lengths 0..300 x Content-Length below/equal/above/zero/negative x buffer {1,2,3,4,7,8,64,1000} x '
